@@ -75,6 +75,7 @@ func main() {
 	keep := flag.Bool("keep", false, "keep the work directory")
 	replace := flag.String("replace", "", "repoRelPath=file,... (mutant files, passed to the instrumenter)")
 	noEvidence := flag.Bool("no-evidence", false, "do not write the evidence file (self-tests)")
+	replaysFlag := flag.String("replays", "", "directory for replay files (default <verif>/replays)")
 	// allow "check C20 --tier quick": property id first
 	if len(os.Args) < 2 {
 		trouble("usage: check <property> [--tier quick|thorough] [--replay file]")
@@ -139,6 +140,9 @@ func main() {
 	}
 
 	replayDir := filepath.Join(verifDir, "replays")
+	if *replaysFlag != "" {
+		replayDir = *replaysFlag
+	}
 
 	// 2. replay mode
 	if *replayFile != "" {
